@@ -125,6 +125,7 @@ where
             ordered_edge_v,
             edge.weight,
             edge_already_exists,
+            &self.specs,
         );
 
         // add to predecessors
@@ -144,6 +145,7 @@ where
                     ordered_edge_u,
                     edge.weight,
                     edge_already_exists,
+                    &self.specs,
                 );
             }
             false => {
@@ -155,13 +157,17 @@ where
                     .entry(v_node_index)
                     .or_default()
                     .insert(u_node_index);
-                add_to_adjacency_vec(
-                    &mut self.successors_vec,
-                    ordered_edge_v,
-                    ordered_edge_u,
-                    edge.weight,
-                    edge_already_exists,
-                );
+                // a self-loop has no mirrored entry: it was added just above
+                if u_node_index != v_node_index {
+                    add_to_adjacency_vec(
+                        &mut self.successors_vec,
+                        ordered_edge_v,
+                        ordered_edge_u,
+                        edge.weight,
+                        edge_already_exists,
+                        &self.specs,
+                    );
+                }
             }
         }
 
@@ -466,6 +472,7 @@ fn add_to_adjacency_vec(
     v_node_index: usize,
     weight: f64,
     edge_already_exists: bool,
+    specs: &GraphSpecs,
 ) {
     match edge_already_exists {
         true => {
@@ -473,7 +480,13 @@ fn add_to_adjacency_vec(
                 .iter()
                 .position(|succ| succ.node_index == v_node_index)
                 .unwrap();
-            if weight < adjacency_vec[u_node_index][index].weight {
+            // The entry must follow the edges that stay stored: on a multi-edge graph the
+            // lightest parallel edge, otherwise the edge kept by the dedupe strategy.
+            let replace = match specs.multi_edges {
+                true => weight < adjacency_vec[u_node_index][index].weight,
+                false => specs.edge_dedupe_strategy == EdgeDedupeStrategy::KeepLast,
+            };
+            if replace {
                 adjacency_vec[u_node_index][index] = AdjacentNode::new(v_node_index, weight);
             }
         }
